@@ -378,6 +378,12 @@ def command_case(ctx, case) -> None:
 def run(ctx) -> None:
     rng = ctx.rng
     cmds = ["best_states", "solve:greedy", "solve:random", "greedy", "solve:largest", "best_states", "ugreedy", "solve:greedy_worst"]
+    # always: one best_states run with several evaluation AND sampling repetitions on differing hidden games (the only
+    # command whose saved matrices are assembled from several search results)
+    command_case(ctx, {"command": "best_states", "n": 3, "generator": rng.choice(["noisy_factory", "xos", "noisy_factory_square"]),
+                       "computer": rng.choice(["superadditive", "superadditive_cached"]), "gap": rng.choice(["exploitability", "l1_norm"]),
+                       "limit": 2, "name": "bs", "seed": rng.randint(0, 10**6), "procs": 1,
+                       "sub": ["best_states", "--sampling-repetitions", "2", "--eval-repetitions", str(rng.choice([2, 3]))], "twice": False})
     i = 0
     t_cmd = 0.0
     while not ctx.out_of_time(6.0):
